@@ -271,6 +271,8 @@ class BaseSection(base.Sectionable):
 
         # raises exception if path cannot be found
         new_section = self.get_section_by_path(new_value)
+        if not isinstance(new_section, BaseSection):
+            raise ValueError("%s.link: '%s' does not lead to a Section." % (repr(self), new_value))
 
         # Make sure the merge is possible before anything is changed.
         self.merge_check(new_section, False)
